@@ -31,6 +31,7 @@ type c19Inv struct {
 	ProgKind  string          `json:"prog_kind"`   // valid | corrupt:<desc>
 	OptShape  string          `json:"opt_shape"`   // order/spelling/repetition pattern
 	Family    string          `json:"family"`      // base | sweep | multi
+	baseIdx   int             // (sweep cases: 1 + index of the fault-free invocation in the round)
 	RefKey    string          `json:"-"`
 	HasLink   bool            `json:"has_link,omitempty"`
 	Sibling   bool            `json:"sibling,omitempty"` // files with names derived from the input's name stand next to it
@@ -55,6 +56,7 @@ type c19Stats struct {
 	evals       int
 	tuples      map[string]bool
 	faultsFired map[string]int
+	recoveryCases int
 	faultsConf  map[string]int
 	clause      map[string]int
 	families    map[string]int
@@ -106,6 +108,8 @@ func checkC19(r *Run) error {
 		"exhaustive": false,
 		"single_fault_sweeps": map[string]any{"invocations_swept": st.swept, "cases": st.sweepCases,
 			"meaning": "for each swept invocation every recorded I/O call of the fault-free run x every applicable error-returning fault kind was executed once"},
+		"recovery_path_sweeps": map[string]any{"cases": st.recoveryCases,
+			"meaning": "second order: for single-fault runs whose fault fired, each of the first 8 I/O calls AFTER the fault (the handling path, absent from the fault-free trace) x every applicable error kind, as a second fault"},
 	}
 	extra := map[string]any{
 		"rounds":            rounds,
@@ -1292,6 +1296,7 @@ func c19Round(r *Run, rng *gen.Rng, st *c19Stats, corpus []string, roundSize, sw
 				for _, kind := range errKinds(ev.Op) {
 					c := *inv
 					c.Family = "sweep"
+					c.baseIdx = i + 1
 					f := &simrt.Fault{Seq: ev.Seq, Op: ev.Op, Kind: kind}
 					if kind == simrt.KSHORT {
 						f.N = rng.Intn(ev.N + 1)
@@ -1315,7 +1320,65 @@ func c19Round(r *Run, rng *gen.Rng, st *c19Stats, corpus []string, roundSize, sw
 			next = append(next, &c)
 		}
 	}
-	_, err = c19Exec(r, st, next, refs)
+	res2, err := c19Exec(r, st, next, refs)
+	if err != nil {
+		return err
+	}
+	// recovery-path sweep (second order): a fault that fired sends the command down a path the
+	// fault-free trace does not contain (clean-up, fallbacks, the next target). Every I/O call of
+	// that path - the first ones after the fault, where the handling happens - fails once more in
+	// every way: the sequence numbers come from the faulted run itself, which is deterministic.
+	rec := []*c19Inv{}
+	maxRec := 600
+	if r.Tier == "thorough" {
+		maxRec = 4000
+	}
+	for k, c := range next {
+		if c.Family != "sweep" || len(c.Spec.Faults) != 1 || len(rec) >= maxRec {
+			continue
+		}
+		f0 := c.Spec.Faults[0]
+		fired := false
+		// only calls the fault-free run did not make at that point: a fault the code tolerates
+		// leaves the normal path, which the first-order sweep already covers
+		basePath := map[int]string{}
+		if c.baseIdx > 0 {
+			for _, ev := range res[c.baseIdx-1].Journal {
+				basePath[ev.Seq] = ev.Op + " " + ev.Path
+			}
+		}
+		after := []simrt.TraceEv{}
+		for _, ev := range res2[k].Journal {
+			switch ev.Op {
+			case simrt.OpDelta, simrt.OpMapRange, simrt.OpExit, simrt.OpEvent, simrt.OpClock:
+				continue
+			}
+			if ev.Seq == f0.Seq && ev.Fault != "" {
+				fired = true
+				continue
+			}
+			if fired && ev.Seq > f0.Seq && len(after) < 8 && basePath[ev.Seq] != ev.Op+" "+ev.Path {
+				after = append(after, ev)
+			}
+		}
+		if !fired {
+			continue
+		}
+		for _, ev := range after {
+			for _, kind := range errKinds(ev.Op) {
+				c2 := *c
+				c2.Family = "recovery-sweep"
+				f := &simrt.Fault{Seq: ev.Seq, Op: ev.Op, Kind: kind}
+				if kind == simrt.KSHORT {
+					f.N = rng.Intn(ev.N + 1)
+				}
+				c2.Spec.Faults = []*simrt.Fault{f0, f}
+				rec = append(rec, &c2)
+				st.recoveryCases++
+			}
+		}
+	}
+	_, err = c19Exec(r, st, rec, refs)
 	return err
 }
 
